@@ -123,11 +123,16 @@ class Content(object):
         self._since += 1
 
     def _gen(self):
-        snap = tuple(self.content)
+        # results are evaluated lazily: each one carries the content at the moment it is yielded.
+        # m = 9: the number of results depends on the data (last value modulo 3)
         self.req_sizes.append(self._since)
         self._since = 0
-        for i in range(1, self.m + 1):
-            yield (i, snap)
+        count = self.m
+        if count == 9:
+            last = self.content[-1] if self.content else 0
+            count = last % 3 if isinstance(last, int) and not isinstance(last, bool) else 1
+        for i in range(1, count + 1):
+            yield (i, tuple(self.content))
 
     def _results(self):
         if self.aslist:
@@ -435,12 +440,77 @@ class DupInc(object):
             yield w
 
 
+def _is_even(v):
+    from . import flowlib
+    return flowlib.data_of(v) % 2 == 0
+
+
+def _is_lt2(v):
+    from . import flowlib
+    return flowlib.data_of(v) < 2
+
+
+def _raising(v):
+    """Selects data 1; raises for data >= 2."""
+    from . import flowlib
+    d = flowlib.data_of(v)
+    if d >= 2:
+        raise ValueError("predicate not defined for %r" % (d,))
+    return d == 1
+
+
+def composed_selector(s):
+    import lena.flow
+    Not, Selector = lena.flow.Not, lena.flow.Selector
+    if s == "not_even":
+        return Not(_is_even)
+    if s == "and_even_lt2":
+        return (_is_even, _is_lt2)
+    if s == "or_even_lt2":
+        return [_is_even, _is_lt2]
+    if s == "not_or":
+        return Not([_is_even, _is_lt2])
+    if s == "and_not":
+        return (Not(_is_even), _is_lt2)
+    if s == "roe":
+        return Selector(_raising, raise_on_error=False)
+    if s == "not_roe":
+        return Not(_raising, raise_on_error=False)
+    raise ValueError(s)
+
+
+def none_map(f):
+    from . import flowlib
+    if f == "none_odd":
+        return lambda v: None if flowlib.data_of(v) % 2 == 1 else v
+    if f == "none_all":
+        return lambda v: None
+    if f == "zero_odd":
+        return lambda v: 0 if flowlib.data_of(v) % 2 == 1 else v
+    raise ValueError(f)
+
+
+NONE_D = -7
+
+
+def project2(v):
+    """flowlib.project with None as the value NoneVal of FillSem.tla."""
+    from . import flowlib
+    if v is None:
+        return {"d": NONE_D, "c": [], "h": False}
+    return flowlib.project(v)
+
+
 def build_stage2(st, fk, variant=0):
     """Real element for a stage of the extended vocabulary (context-dependent selectors), else flowlib's.
 
     variant chooses between equivalent spellings (Slice(stop), Slice(start, stop), Slice(start, stop, step))."""
     import lena.flow
     from . import flowlib
+    if st["t"] == "sfilter":
+        return lena.flow.Filter(composed_selector(st["s"]))
+    if st["t"] == "nmap":
+        return none_map(st["f"])
     if st["t"] == "runifdup":
         return lena.flow.RunIf(st["k"], DupInc())
     if st["t"] == "runifseq":
@@ -502,7 +572,7 @@ def siblings(variant=0):
     return a, b
 
 
-STATELESS = ("map", "filter", "slice", "runif", "cfilter", "crunif", "runifdup", "runifseq")
+STATELESS = ("map", "filter", "slice", "runif", "cfilter", "crunif", "runifdup", "runifseq", "sfilter", "nmap")
 
 
 class SecondComputeDiffers(Exception):
@@ -584,6 +654,10 @@ def chain_key(ch):
             return "slice(%s,%s,%s)" % (st["a"], "None" if st["b"] == NONE else st["b"], st["s"])
         if t == "runif":
             return "runif(%s,%s)" % (st["p"], st["f"])
+        if t == "sfilter":
+            return "filter-" + st["s"]
+        if t == "nmap":
+            return st["f"]
         if t == "runifdup":
             return "runif-ctx(%s,dup)" % st["k"]
         if t == "runifseq":
